@@ -219,7 +219,8 @@ def api_calls(g, fam, info_first=True):
 #  C15/C16's subject, so code 2 is not part of this sweep; codes 4 and 6 must surface as RequestRejectedException)
 FAULT_MODES = ["silent", "garbage", "eof", ["recverr", errno.ECONNREFUSED], ["recverr", errno.ECONNRESET],
                ["recverr", errno.EHOSTUNREACH], ["exc", 4], ["exc", 6], ["senderr", errno.ENETUNREACH],
-               ["senderr", errno.EACCES], ["connect", "refused"], ["connect", "unreach"], ["connect", "hang"]]
+               ["senderr", errno.EACCES], ["junk", 0], ["junk", 1], ["junk", 3], ["junk", 4], ["junk", 5], ["junk", 6], ["junk", 7], ["junk", 8],
+               ["connect", "refused"], ["connect", "unreach"], ["connect", "hang"]]
 
 
 def run_c(case, part):
@@ -265,7 +266,7 @@ def run_c(case, part):
     if run.error is not None:
         vs.append((f"C09/{tag}/setup", f"{case}: {run.error!r}"))
     no_answer = mode in ("silent", "eof") or (isinstance(mode, list) and mode[0] in ("recverr", "senderr", "connect")) \
-        or (mode == "garbage" and port != 502)
+        or ((mode == "garbage" or (isinstance(mode, list) and mode[0] == "junk")) and port != 502)
     for r in results:
         c, o = r[0], r[1]
         part.count("api_calls_under_fault")
